@@ -6,7 +6,9 @@
    correspondence run (identity ledger on both sides, clone at every step, every later order). *)
 From Coq Require Import ZArith List Bool Lia.
 From MV Require Import Ast Eval Scalar Machine.
-From MV.Proofs Require Import Arith Logic Prim View OpsLocal Guards Grow CapHistory Core Refine Clone Extend CloneSlice DrainIt IntoIt IntoClone.
+From MV.Proofs Require Import Arith Logic Prim View OpsLocal Guards Grow CapHistory Core Refine Clone Extend CloneSlice DrainIt IntoIt IntoClone SourceSpecs.
+From MV Require Import EquivDefs Prims EquivExtSlice.
+Close Scope string_scope.
 Import ListNotations.
 Open Scope Z_scope.
 
@@ -133,3 +135,25 @@ Theorem C12_clone_body_never_runs_out_of_fuel :
   fst (clone_body cfg ncap v s) <> OutOfFuel.
 Proof. exact clone_body_fuel. Qed.
 Print Assumptions C12_clone_body_never_runs_out_of_fuel.
+
+(* END TO END for extend_from_slice: the regenerated body -- `reserve`, then the `for` loop over the slice
+   as the translator renders it -- evaluated by the IR semantics meets the statement above: tie
+   (EquivExtSlice.v, induction over the slice) and theorem composed into one statement about the source *)
+Theorem C12_the_source_of_extend_from_slice_clones_each_element_once :
+  forall cfg ncap, cfg_ok cfg -> policy_ok ncap -> needs_drop cfg = true ->
+  forall s w l src F,
+  vabs cfg s w l -> cloneable s src -> (List.length src <= F)%nat ->
+  match EquivExtSlice.run_ext cfg ncap (EquivDefs.FUEL + F) w src s with
+  | (Norm _, s') =>
+      vabs cfg s' w (l ++ zseq (next_elem s) (List.length src)) /\
+      next_elem s' = next_elem s + Z.of_nat (List.length src) /\
+      (forall e, e < next_elem s -> ledger s' e = ledger s e /\ payload s' e = payload s e) /\
+      (forall j, (j < List.length src)%nat -> payload s' (next_elem s + Z.of_nat j) = payload s (nth j src 0))
+  | (Panic, s') =>
+      exists k, (k <= List.length src)%nat /\ vabs cfg s' w (l ++ zseq (next_elem s) k) /\
+                (forall e, e < next_elem s -> ledger s' e = ledger s e)
+  | (Fail FAbort, _) | (Fail (FAllocAbort _ _), _) => True
+  | _ => False
+  end.
+Proof. exact SourceSpecs.extend_from_slice_source. Qed.
+Print Assumptions C12_the_source_of_extend_from_slice_clones_each_element_once.
